@@ -8,7 +8,7 @@ _Bool PDU_v_matches_response(const PDU* self, const uint8_t* ptr, uint32_t total
 __CPROVER_requires(self != NULL)
 __CPROVER_requires(__CPROVER_r_ok(ptr, total_sz))
 __CPROVER_assigns(G_inner_calls, G_inner_sz)
-__CPROVER_ensures(__CPROVER_return_value == G_inner_result)
+__CPROVER_ensures(TINS_BEQ(__CPROVER_return_value, G_inner_result))
 __CPROVER_ensures(G_inner_calls == __CPROVER_old(G_inner_calls) + 1)
 __CPROVER_ensures(G_inner_sz == total_sz)
 ;
